@@ -33,6 +33,15 @@ Definition dispatch (op : Z) (args : list tok) : value :=
              end
     | _ => VBad
     end
+  | 1606 =>
+    (* one payloader instance (0 G711, 1 G722, 2 Opus) over a sequence of calls: it keeps nothing
+       between calls, so every call is judged on its own *)
+    match args with
+    | [TInt kind; TList calls] =>
+      let f := if kind =? 0 then g711_payload else if kind =? 1 then g722_payload else opus_payload in
+      VList (map (fun c => match c with TList a => d_payloader f a | _ => VBad end) calls)
+    | _ => VBad
+    end
   | 1605 =>
     (* one OpusPacket over a sequence of payloads (the receiver keeps nothing between calls) *)
     match args with
@@ -44,8 +53,8 @@ Definition dispatch (op : Z) (args : list tok) : value :=
     | _ => VBad
     end
   | _ => if op =? 601 then dispatch_pktz op args
-         else if (op =? 2001) || (op =? 2002) || (op =? 2003) then dispatch_rtp op args
+         else if (op =? 2001) || (op =? 2002) || (op =? 2003) || (op =? 2004) then dispatch_rtp op args
          else if (100 <=? op) && (op <? 600) then dispatch_rtp op args
-         else if ((1700 <=? op) && (op <? 2000)) || (op =? 701) || (op =? 702) || (op =? 703) then dispatch_ext op args
+         else if ((1700 <=? op) && (op <? 2000)) || (op =? 701) || (op =? 702) || (op =? 703) || (op =? 704) then dispatch_ext op args
          else if (800 <=? op) && (op <? 1600) then dispatch_codecs op args else VBad
   end.
